@@ -149,49 +149,57 @@ Definition keyboard_key (code : N) : option kname :=
     (if scalar_ok code then Some (KChar code) else None)
   else None.
 
-Definition dec_kitty_keyboard (data : list N) : option tev :=
-  let body := sl 2 1 data in
-  match body with
-  | 63 :: level => match Dec10.number_decode level with Some n => Some (EKeyLevel n) | None => None end
-  | _ =>
-      match Sgr.split_on 59 body with
-      | [] => None
-      | codes :: rest =>
-          match keyboard_key (match numbers_decode codes 58 with c :: _ => c | [] => 1 end) with
-          | None => None
-          | Some name =>
-              match rest with
-              | [] => Some (EKey name 0)
-              | modes :: _ =>
-                  let ms := numbers_decode modes 58 in
-                  let mode := match ms with
-                              | m :: _ => if 1 <? m then mod_from_bits (m - 1) else 0
-                              | [] => 0
-                              end in
-                  let event_type := match ms with _ :: e :: _ => e | _ => 0 end in
-                  if event_type =? 0 then Some (EKey name mode) else None
-              end
+(* the branch for `CSI unicode-key-code:alternates ; modifiers:event-type ; text u` *)
+Definition kitty_key_fields (body : list N) : option tev :=
+  match Sgr.split_on 59 body with
+  | [] => None
+  | codes :: rest =>
+      match keyboard_key (match numbers_decode codes 58 with c :: _ => c | [] => 1 end) with
+      | None => None
+      | Some name =>
+          match rest with
+          | [] => Some (EKey name 0)
+          | modes :: _ =>
+              let ms := numbers_decode modes 58 in
+              let mode := match ms with
+                          | m :: _ => if 1 <? m then mod_from_bits (m - 1) else 0
+                          | [] => 0
+                          end in
+              let event_type := match ms with _ :: e :: _ => e | _ => 0 end in
+              if event_type =? 0 then Some (EKey name mode) else None
           end
       end
   end.
 
+Definition dec_kitty_keyboard (data : list N) : option tev :=
+  let body := sl 2 1 data in
+  match body with
+  | 63 :: level => match Dec10.number_decode level with Some n => Some (EKeyLevel n) | None => None end
+  | _ => kitty_key_fields body
+  end.
+
 (* ---- 7 MouseEventMatcher ---- *)
 Definition last_byte (data : list N) : N := last data 0.
+(* button / modifier decoding of the first parameter; `press` = the final byte is 'M' *)
+Definition mouse_fields (event : N) (press : bool) : mname * N :=
+  let mode := mod_from_bits (N.land (N.shiftr event 2) 7) in
+  let mode := if press then N.lor mode MOD_PRESS else mode in
+  let button := N.land event 3 in
+  let name :=
+    if negb (N.land event 64 =? 0) then
+      (if button =? 0 then MWheelDown else if button =? 1 then MWheelUp else MMove)
+    else if button =? 0 then MLeft
+    else if button =? 1 then MMiddle
+    else if button =? 2 then MRight
+    else MMove in
+  (name, mode).
+
 Definition dec_mouse (data : list N) : option tev :=
   match numbers_decode (sl 3 1 data) 59 with
   | event :: c :: r :: _ =>
       match checked_dec c, checked_dec r with
       | Some col, Some row =>
-          let mode := mod_from_bits (N.land (N.shiftr event 2) 7) in
-          let mode := if last_byte data =? 77 then N.lor mode MOD_PRESS else mode in
-          let button := N.land event 3 in
-          let name :=
-            if negb (N.land event 64 =? 0) then
-              (if button =? 0 then MWheelDown else if button =? 1 then MWheelUp else MMove)
-            else if button =? 0 then MLeft
-            else if button =? 1 then MMiddle
-            else if button =? 2 then MRight
-            else MMove in
+          let '(name, mode) := mouse_fields event (last_byte data =? 77) in
           Some (EMouse name mode row col)
       | _, _ => None
       end
